@@ -1,11 +1,27 @@
 import Tbx.Model.Dijkstra
+import Tbx.Model.DijkstraLegacy
 import Tbx.Spec.ShortestPath
+import Tbx.Proofs.DijkstraBasic
+import Tbx.Proofs.CellIndex
+import Tbx.Proofs.CellExact
+import Tbx.Proofs.DijkstraExact
+import Tbx.Proofs.DijkstraFuel
+import Tbx.Proofs.DijkstraHeapInst
 /-
 C08 — Dijkstra searches and cell matrices return true shortest-path distances.
+
 Property theorems only (helper lemmas live in Tbx/Proofs).  Registered in Tbx/Audit/C08.lean.
+All theorems are about the executable models in Tbx/Model/Dijkstra.lean on top of the heap model
+Tbx/Model/AHeap.lean; the queue interface the proofs use (`HeapLaws`) is DISCHARGED here from C10's
+refinement theorems (`Tbx.Dijkstra.heapLaws : HeapLaws AHeap.Inv`), so nothing about the heap is assumed.
+
+Notation: `adj u` = out-edges (target, weight) of u in edge order; `n` = number of nodes;
+`WFq q` = the queue's weight-type constants are (0, usize::MAX); `UMAX` = usize::MAX.
 -/
 namespace Tbx.Props.C08
 open Tbx Tbx.Dijkstra
+
+/-! ### the judge -/
 
 /-- the judge's distance oracle: Bellman-Ford labels that pass the certificate check are the true
 distances, missing labels mean unreachable -/
@@ -13,5 +29,210 @@ theorem judge_oracle_sound {g : SP.Adj} {n s : Nat} (h : SP.certB g n s (SP.dist
     match gt (SP.distB g n s) t with
     | some d => SP.IsDist g s t d
     | none => ¬ SP.Reachable g s t := SP.distB_spec h t
+
+/-- the witness graph of D2/D3 in static-graph edge order: 0→1(1), 0→2(10), 1→2(1), 2→3(1), 0→3(5) -/
+def exAdj : Adj := staticAdj [(0, 1, 1), (0, 2, 10), (1, 2, 1), (2, 3, 1), (0, 3, 5)]
+
+def resultOf {α : Type} (r : Res (α × Int)) : Option Int := match r with | .ok (_, d) => some d | _ => none
+def stateOf {α β : Type} (r : Res (α × β)) : Option α := match r with | .ok (st, _) => some st | _ => none
+
+/-- non-vacuity: the certificate check succeeds on the witness graph (and the oracle says 3) -/
+example : SP.certB exAdj 4 0 (SP.distB exAdj 4 0) = true ∧ gt (SP.distB exAdj 4 0) 3 = some 3 := by decide
+
+/-! ### reuse (P0): `run` starts with `clear` -/
+
+/-- the result of `run` (returned value AND complete search state) on a used object equals the
+result on a fresh object -/
+theorem reuse_eq_fresh (adj : Adj) (n : Nat) (st : Uni) (s t : Nat) (h : WFq st.queue) :
+    uniRun adj n st s t = uniRun adj n Uni.new s t := uniRun_reuse adj n st s t h
+
+theorem reuse_eq_fresh_o2m (adj : Adj) (n : Nat) (st : O2M) (source : Nat) (targets : List Nat) (h : WFq st.queue) :
+    o2mRun adj n st source targets = o2mRun adj n O2M.new source targets := o2mRun_reuse adj n st source targets h
+
+/-- `WFq` holds for a new object and is preserved by `run`, so it holds before every query of a history -/
+theorem wf_preserved :
+    WFq Uni.new.queue ∧ WFq O2M.new.queue ∧
+    (∀ adj n st st' s t r, uniRun adj n st s t = .ok (st', r) → WFq st.queue → WFq st'.queue) ∧
+    (∀ adj n st st' s ts ok, o2mRun adj n st s ts = .ok (st', ok) → WFq st.queue → WFq st'.queue) :=
+  ⟨WFq_new_uni, WFq_new_o2m, fun adj n st st' s t r h hw => uniRun_params adj n st st' s t r h hw,
+   fun adj n st st' s ts ok h hw => o2mRun_params adj n st st' s ts ok h hw⟩
+
+/-- histories: any sequence of queries on ONE object yields, query by query, what a fresh object yields -/
+theorem reuse_seq (adj : Adj) (n : Nat) (qs : List (Nat × Nat)) (ps : List (Nat × List Nat)) :
+    uniSeq adj n Uni.new qs = uniSeqFresh adj n qs ∧ o2mSeq adj n O2M.new ps = o2mSeqFresh adj n ps :=
+  ⟨uniSeq_eq_fresh adj n Uni.new WFq_new_uni qs, o2mSeq_eq_fresh adj n O2M.new WFq_new_o2m ps⟩
+
+/-- non-vacuity: a used object (after the query 0→3) satisfies `WFq`, and a second query on it returns 2 -/
+example : ∃ st, stateOf (uniRun exAdj 4 Uni.new 0 3) = some st ∧ WFq st.queue ∧
+    resultOf (uniRun exAdj 4 st 0 2) = some 2 := by
+  refine ⟨_, rfl, ⟨rfl, rfl⟩, rfl⟩
+
+/-! ### cell matrices (P0): pure index arithmetic -/
+
+/-- after `BaseCell::process` the matrix has |incoming|·|outgoing| entries and entry `i·|out| + j`
+holds what the search from the i-th source id reported for the j-th target id (`cellEntry`: the
+one-to-many run on a FRESH object — the reused one gives the same by `reuse_eq_fresh_o2m` — or
+0/MAX for a boundary node without incident edge) -/
+theorem matrix_index (c : BaseCell) (mc : MatrixCell) (h : process c = .ok mc) :
+    mc.incoming = c.incoming ∧ mc.outgoing = c.outgoing ∧
+    mc.matrix.size = c.incoming.length * c.outgoing.length ∧
+    ∃ newEdges seenF sourceIds targetIds,
+      renumber c.edges (c.outgoing.foldl orInsert (c.incoming.foldl orInsert [])) = some (newEdges, seenF) ∧
+      lookupAll seenF c.incoming = some sourceIds ∧ lookupAll seenF c.outgoing = some targetIds ∧
+      ∀ (i j source target : Nat), sourceIds[i]? = some source → targetIds[j]? = some target →
+        i * c.outgoing.length + j < mc.matrix.size ∧
+        gt mc.matrix (i * c.outgoing.length + j) =
+          cellEntry (staticAdj newEdges) (staticNodes newEdges) c.edges.isEmpty targetIds source target UMAX :=
+  process_matrix c mc h
+
+/-- distinct (row, column) pairs have distinct addresses, so no entry is overwritten -/
+theorem matrix_index_injective {m i j i' j' : Nat} (hj : j < m) (hj' : j' < m) (h : i * m + j = i' * m + j') :
+    i = i' ∧ j = j' := idx_inj hj hj' h
+
+/-- `get_distance_row(u)` is the slice `[i·|out|, (i+1)·|out|)` of the matrix for the (first) index
+`i` of `u` in `incoming`: it has |out| entries and entry `j` is `matrix[i·|out| + j]` -/
+theorem row_slice (c : MatrixCell) (u : Nat) (row : Array Int) (h : distanceRow c u = some row) :
+    ∃ i, c.incoming[i]? = some u ∧ (∀ k, k < i → c.incoming[k]? ≠ some u) ∧
+      row = c.matrix.extract (i * c.outgoing.length) ((i + 1) * c.outgoing.length) ∧
+      row.size = c.outgoing.length ∧
+      ∀ j, j < c.outgoing.length →
+        i * c.outgoing.length + j < c.matrix.size ∧ gt row j = gt c.matrix (i * c.outgoing.length + j) :=
+  distanceRow_spec c u row h
+
+/-- `overlay_edges` lists, row-major, exactly the finite matrix cells: edge (i, j) is
+`(incoming[i], outgoing[j], matrix[i·|out| + j])` -/
+theorem overlay_index (c : MatrixCell) (r : Array (Nat × Nat × Int)) (h : overlayEdges c = some r) :
+    r.toList = (List.range c.incoming.length).flatMap
+      (fun i => (List.range c.outgoing.length).filterMap (overlayEntry c i)) := overlayEdges_spec c r h
+
+/-- the D5 witness cell: 2 incoming × 3 outgoing -/
+def exCell : BaseCell :=
+  { incoming := [0, 1], outgoing := [2, 3, 4], edges := [(0, 2, 1), (0, 3, 2), (0, 4, 3), (1, 2, 4), (1, 3, 5), (1, 4, 6)] }
+
+def matrixOf (r : Res MatrixCell) : Option (List Int) := match r with | .ok mc => some mc.matrix.toList | _ => none
+
+/-- non-vacuity: `process` succeeds on a non-square cell; rows and overlay are as specified -/
+example : matrixOf (process exCell) = some [1, 2, 3, 4, 5, 6] := by rfl
+example : (distanceRow ⟨[0, 1], [2, 3, 4], #[1, 2, 3, 4, 5, 6]⟩ 1).map Array.toList = some [4, 5, 6] := by rfl
+example : (overlayEdges ⟨[0, 1], [2, 3, 4], #[1, 2, 3, UMAX, 5, 6]⟩).map Array.toList =
+    some [(0, 2, 1), (0, 3, 2), (0, 4, 3), (1, 3, 5), (1, 4, 6)] := by decide
+
+/-- D5 (fixed): the legacy index expressions violate `row_slice` / `overlay_index` on the 2×3 witness:
+row(1) had 4 entries and the overlay repeated column 0 -/
+example : (Legacy.distanceRowD5 ⟨[0, 1], [2, 3, 4], #[1, 2, 3, 4, 5, 6]⟩ 1).map Array.toList = some [3, 4, 5, 6] := by rfl
+example : (Legacy.overlayD5 ⟨[0, 1], [2, 3, 4], #[1, 2, 3, 4, 5, 6]⟩).map (fun e => e.2.2) = [1, 1, 1, 2, 3, 4] := by decide
+
+/-! ### distances (P0: label_sound; P1: exactness, totality) -/
+
+/-- **label_sound.**  After `run` every stored weight (of every node ever inserted, settled or still
+queued) is the weight of a real walk from the source. -/
+theorem label_sound (adj : Adj) (n : Nat) (st st' : Uni) (s t : Nat) (r : Int) (hw : WFq st.queue)
+    (h : uniRun adj n st s t = .ok (st', r)) (v : Nat) (hv : AHeap.inserted st'.queue (v : Int) = true) :
+    ∃ d : Nat, AHeap.weight st'.queue (v : Int) = (d : Int) ∧ SP.Walk adj s v d := by
+  have := uniRun_spec heapLaws adj n st s t hw
+  rw [h] at this
+  obtain ⟨v', d, hv', hd, hwalk⟩ := (UniPost.core this).sound v hv
+  have : v = v' := by omega
+  subst this
+  exact ⟨d, hd, hwalk⟩
+
+theorem label_sound_o2m (adj : Adj) (n : Nat) (st st' : O2M) (s : Nat) (ts : List Nat) (ok : Bool)
+    (hnd : ts.Nodup) (hw : WFq st.queue) (h : o2mRun adj n st s ts = .ok (st', ok)) (v : Nat)
+    (hv : AHeap.inserted st'.queue (v : Int) = true) :
+    ∃ d : Nat, st'.distance v = (d : Int) ∧ SP.Walk adj s v d := by
+  have := o2mRun_spec heapLaws adj n st s ts hnd hw
+  rw [h] at this
+  obtain ⟨v', d, hv', hd, hwalk⟩ := this.1.linv.sound v hv
+  have : v = v' := by omega
+  subst this
+  exact ⟨d, hd, hwalk⟩
+
+/-- **dijkstra_exact.**  If `run(s,t)` returns `r` then `r` is the true distance, or `r` is the
+unreachable marker and no walk s ⇝ t exists; and `run` never reaches a panic branch. -/
+theorem dijkstra_exact (adj : Adj) (n : Nat) (st : Uni) (s t : Nat) (hw : WFq st.queue) :
+    uniRun adj n st s t ≠ .panic ∧
+    ∀ st' r, uniRun adj n st s t = .ok (st', r) →
+      (∃ d : Nat, r = (d : Int) ∧ SP.IsDist adj s t d) ∨ (r = UMAX ∧ ¬ SP.Reachable adj s t) := by
+  have := uniRun_spec heapLaws adj n st s t hw
+  constructor
+  · intro h; rw [h] at this; exact this
+  · intro st' r h; rw [h] at this; exact UniPost.exact this
+
+/-- with the side condition "distances stay below usize::MAX": marker ⇔ unreachable -/
+theorem dijkstra_marker_iff (adj : Adj) (n : Nat) (st st' : Uni) (s t : Nat) (r : Int) (hw : WFq st.queue)
+    (h : uniRun adj n st s t = .ok (st', r)) (hside : ∀ d, SP.IsDist adj s t d → (d : Int) < UMAX) :
+    r = UMAX ↔ ¬ SP.Reachable adj s t := by
+  rcases (dijkstra_exact adj n st s t hw).2 st' r h with ⟨d, hr, hd⟩ | ⟨hr, hn⟩
+  · constructor
+    · intro e; have := hside d hd; omega
+    · intro hn; exact absurd ⟨d, hd.1⟩ hn
+  · exact ⟨fun _ => hn, fun _ => hr⟩
+
+/-- **fuel_sufficient / totality.**  On a graph whose edges stay below `n` and a source `< n`, the
+`n + 1` iterations the model allows are enough: `run` returns. -/
+theorem dijkstra_total (adj : Adj) (n : Nat) (st : Uni) (s t : Nat) (hw : WFq st.queue)
+    (hb : Bounded adj n) (hs : s < n) : ∃ st' r, uniRun adj n st s t = .ok (st', r) := by
+  obtain ⟨a, ha, _⟩ := Res.ok_of (uniRun_spec heapLaws adj n st s t hw) (uniRun_fuel heapLaws hb hs t st hw)
+  exact ⟨a.1, a.2, ha⟩
+
+/-- **one_to_many_exact.**  For distinct targets: `run` never panics; the success flag is true iff
+all targets are reachable; and — whether or not it is true — `distance(t)` of every target is its
+true distance, or the unreachable marker for an unreachable target.  (`BaseCell::process` relies on
+the second part also when the flag is false.) -/
+theorem one_to_many_exact (adj : Adj) (n : Nat) (st : O2M) (s : Nat) (ts : List Nat) (hnd : ts.Nodup)
+    (hw : WFq st.queue) :
+    o2mRun adj n st s ts ≠ .panic ∧
+    ∀ st' ok, o2mRun adj n st s ts = .ok (st', ok) →
+      (ok = true ↔ ∀ t ∈ ts, SP.Reachable adj s t) ∧
+      ∀ t ∈ ts, (∃ d : Nat, st'.distance t = (d : Int) ∧ SP.IsDist adj s t d) ∨
+                (st'.distance t = UMAX ∧ ¬ SP.Reachable adj s t) := by
+  have := o2mRun_spec heapLaws adj n st s ts hnd hw
+  constructor
+  · intro h; rw [h] at this; exact this
+  · intro st' ok h
+    rw [h] at this
+    obtain ⟨P, hok⟩ := this
+    have := P.exact heapLaws
+    simp only at hok
+    rw [hok]
+    exact this
+
+theorem one_to_many_total (adj : Adj) (n : Nat) (st : O2M) (s : Nat) (ts : List Nat) (hnd : ts.Nodup)
+    (hw : WFq st.queue) (hb : Bounded adj n) (hs : s < n) : ∃ st' ok, o2mRun adj n st s ts = .ok (st', ok) := by
+  obtain ⟨a, ha, _⟩ := Res.ok_of (o2mRun_spec heapLaws adj n st s ts hnd hw) (o2mRun_fuel heapLaws hb hs ts st hw)
+  exact ⟨a.1, a.2, ha⟩
+
+/-- non-vacuity of the hypotheses above: the witness graph is bounded by 4, the run 0→3 returns 3
+(the value the legacy heap got wrong: 5), one-to-many {3,2} succeeds with distances 3 and 2 -/
+example : Bounded exAdj 4 := by
+  intro u hu v w h
+  have : u = 0 ∨ u = 1 ∨ u = 2 ∨ u = 3 := by omega
+  rcases this with rfl | rfl | rfl | rfl <;> simp [exAdj, staticAdj, sortEdges, insertSorted, edgeLe] at h <;> omega
+example : resultOf (uniRun exAdj 4 Uni.new 0 3) = some 3 := by rfl
+example : (match o2mRun exAdj 4 O2M.new 0 [3, 2] with
+    | .ok (st, ok) => some (ok, st.distance 3, st.distance 2) | _ => none) = some (true, 3, 2) := by rfl
+
+/-! ### the matrix holds the true boundary distances -/
+
+/-- **matrix_exact.**  For every cell whose outgoing boundary list has no duplicates (nodes may be
+incoming AND outgoing, boundary nodes may have no incident edge, incoming may be in any order):
+`process` returns (no panic, enough fuel), the matrix has |in|·|out| entries, and
+`matrix[i·|out| + j]` is the true distance from `incoming[i]` to `outgoing[j]` in the cell's own
+graph `cellGraph c.edges` (original node ids) — or the unreachable marker iff no walk exists. -/
+theorem matrix_exact (c : BaseCell) (hout : c.outgoing.Nodup) :
+    ∃ mc, process c = .ok mc ∧ mc.incoming = c.incoming ∧ mc.outgoing = c.outgoing ∧
+      mc.matrix.size = c.incoming.length * c.outgoing.length ∧
+      ∀ (i j a b : Nat), c.incoming[i]? = some a → c.outgoing[j]? = some b →
+        (∃ d : Nat, gt mc.matrix (i * c.outgoing.length + j) = (d : Int) ∧ SP.IsDist (cellGraph c.edges) a b d) ∨
+        (gt mc.matrix (i * c.outgoing.length + j) = UMAX ∧ ¬ SP.Reachable (cellGraph c.edges) a b) :=
+  process_exact c hout
+
+/-- non-vacuity: the witness cell of the overlap defect (node 2 incoming and outgoing) satisfies the
+hypothesis and gets the matrix [4, 9, 0, 5] -/
+example : ([2, 3] : List Nat).Nodup := by decide
+example : matrixOf (process { incoming := [1, 2], outgoing := [2, 3], edges := [(1, 2, 4), (2, 3, 5)] }) =
+    some [4, 9, 0, 5] := by rfl
+/-- … and a boundary node beyond the searched subgraph reaches nothing -/
+example : matrixOf (process { incoming := [1, 2], outgoing := [3], edges := [(1, 1, 5)] }) = some [UMAX, UMAX] := by rfl
 
 end Tbx.Props.C08
